@@ -79,22 +79,30 @@ def bishopPair (b : Board) : Int :=
   (if BB.count (b.bishopsOf .white) > 1 then bonus else 0) -
   (if BB.count (b.bishopsOf .black) > 1 then bonus else 0)
 
+/-- one piece of the mobility loops: the table entry for the number of safe squares it attacks is
+    added, its attack set is collected (`none`: the table index would be out of bounds) -/
+def mobStep (safe : BB) (tbl : Array (Int × Int)) (moves : Sq → BB) (st : Option (Int × BB)) (p : Sq) :
+    Option (Int × BB) := do
+  let (e, att) ← st
+  let m := moves p
+  let v ← tbl[BB.count (m &&& safe)]?
+  pure (e + packP v, att ||| m)
+
+/-- squares not attacked by an enemy pawn -/
+def safeSquares (b : Board) (pl : Player) : BB :=
+  let theirPawns := BB.forward pl.other (b.pawnsOf pl.other)
+  ~~~(BB.west theirPawns ||| BB.east theirPawns)
+
 /-- `mobility_and_opp_king_safety_for`; `none` when an array index would be out of bounds or the
     enemy king is missing -/
 def mobilityFor (b : Board) (pl : Player) : Option Int := do
   let blockers := b.occupancy
-  let theirPawns := BB.forward pl.other (b.pawnsOf pl.other)
-  let safe := ~~~(BB.west theirPawns ||| BB.east theirPawns)
-  let step (tbl : Array (Int × Int)) (moves : Sq → BB) (st : Option (Int × BB)) (p : Sq) : Option (Int × BB) := do
-    let (e, att) ← st
-    let m := moves p
-    let v ← tbl[BB.count (m &&& safe)]?
-    pure (e + packP v, att ||| m)
-  let st := (BB.toList (b.knightsOf pl)).foldl (step Gen.knightMobility knightAttacks) (some (0, 0#64))
-  let st := (BB.toList (b.bishopsOf pl)).foldl (step Gen.bishopMobility (fun p => bishopAttacks p blockers)) st
-  let st := (BB.toList (b.rooksOf pl)).foldl (step Gen.rookMobility (fun p => rookAttacks p blockers)) st
+  let safe := safeSquares b pl
+  let st := (BB.toList (b.knightsOf pl)).foldl (mobStep safe Gen.knightMobility knightAttacks) (some (0, 0#64))
+  let st := (BB.toList (b.bishopsOf pl)).foldl (mobStep safe Gen.bishopMobility (fun p => bishopAttacks p blockers)) st
+  let st := (BB.toList (b.rooksOf pl)).foldl (mobStep safe Gen.rookMobility (fun p => rookAttacks p blockers)) st
   let st := (BB.toList (b.queensOf pl)).foldl
-    (step Gen.queenMobility (fun p => bishopAttacks p blockers ||| rookAttacks p blockers)) st
+    (mobStep safe Gen.queenMobility (fun p => bishopAttacks p blockers ||| rookAttacks p blockers)) st
   let (e, att) ← st
   let ek ← BB.lsbSq? (b.kingOf pl.other)
   let v ← Gen.attackedKingSquares[BB.count (att &&& kingAttacks ek)]?
